@@ -364,6 +364,20 @@ def case_planner(ctx, inp):
                 ctx.branch("merge:homogeneous")
         if sum(got) != sum(cs) or len(got) > max(n, 1) and len(cs) > n or any(c <= 0 for c in got):
             ctx.fail("merge_to_number: result does not add up / too many chunks / empty chunk", observed=got)
+    elif op == "balance":
+        import warnings
+        cs = tuple(inp["cs"])
+        with warnings.catch_warnings():
+            warnings.simplefilter("ignore")
+            got = tuple(int(c) for c in R._balance_chunksizes(cs))
+        if sum(got) != sum(cs) or any(c <= 0 for c in got):
+            ctx.fail("_balance_chunksizes: result does not add up / has an empty chunk", observed=got)
+        if got != cs:
+            ctx.branch("balance:changed")
+            if max(got) - min(got) > max(cs) - min(cs):
+                ctx.fail("_balance_chunksizes: result is less balanced than the input", observed=got)
+        else:
+            ctx.branch("balance:kept")
     elif op == "plan":
         old, new = [tuple(c) for c in inp["old"]], [tuple(c) for c in inp["new"]]
         old, new = tuple(old), tuple(new)
@@ -601,6 +615,9 @@ def generate(ctx):
         if r < 0.4:
             cs = [rng.randint(0 if rng.random() < 0.1 else 1, 40) for _ in range(rng.randint(1, 8))]
             yield "planner", {"op": "divide", "cs": cs, "w": rng.randint(0 if rng.random() < 0.03 else 1, 45)}
+        elif r < 0.47:
+            n = rng.randint(1, 60)
+            yield "planner", {"op": "balance", "cs": rand_comp(rng, n, rng.choice(["uniform", "uniform", "irregular", "ragged"]))}
         elif r < 0.8:
             if rng.random() < 0.5:
                 cs = [rng.randint(1, 9)] * rng.randint(1, 12)
